@@ -303,6 +303,14 @@ def main():
         raise Unsupported("sort(list): the CollectionClearGuard for m_scratchVector is no longer constructed before the vector is filled")
     efe0 = strip_comments(open(os.path.join(common.REPO, "src", "xalanc", "XSLT", "ElemForEach.cpp"), encoding="utf-8", errors="replace").read())
     scb0, _ = function_body(efe0, r"ElemForEach::sortChildren\(")
+    # re-entrancy (model: innerSortFixed): the shared sorter is used only when idle, a private one otherwise
+    lm = re.search(r"NodeSorter\s+(\w+)\(\s*executionContext\.getMemoryManager\(\)\s*\)\s*;\s*"
+                   r"if\s*\(\s*sorter->getSortKeys\(\)\.empty\(\)\s*==\s*false\s*\)\s*\{\s*sorter\s*=\s*&(\w+)\s*;\s*\}", scb0)
+    km = re.search(r"NodeSortKeyVectorType&\s*keys\s*=\s*sorter->getSortKeys\(\)\s*;", scb0)
+    facts["reentrant_sorter_guard"] = bool(lm and km and lm.group(1) == lm.group(2) and lm.end() <= km.start())
+    if not facts["reentrant_sorter_guard"]:
+        raise Unsupported("sortChildren: no private NodeSorter is substituted when the execution context's shared sorter is in use "
+                          "(its key vector is not empty): a sort started from a sort key's evaluation would re-enter the active sorter")
     g4 = re.search(r"CollectionClearGuard<\s*NodeSortKeyVectorType\s*>\s+\w+\(\s*keys\s*\)\s*;", scb0)
     lp = re.search(r"\bfor\s*\(", scb0)
     if not (g4 and lp and g4.start() < lp.start() and re.search(r"NodeSortKeyVectorType&\s*keys\s*=\s*sorter->getSortKeys\(\)\s*;", scb0)):
